@@ -37,6 +37,11 @@ func runC07(c *core.Ctx) {
 	c.Doc("apply-term", 8, "wrapper Apply calls the wrapped function exactly once, arguments in order, results returned unchanged")
 	c.Doc("pure-never-fails", 2, "Pure wraps f as (f(a), nil)")
 
+	for _, pkg := range []string{"pipe", "pipe/fork"} {
+		for _, ctor := range []string{"Lift", "LiftF", "Try", "TryF"} {
+			wrapsArgument(c, pkg, ctor)
+		}
+	}
 	for _, es := range errorStages {
 		fn := c.W.Func(es.pkg, es.name)
 		name := pkgShort(es.pkg) + "." + es.name
@@ -471,5 +476,77 @@ func ctorKinds(c *core.Ctx, pkg string) {
 		}
 		c.Check(ci.Kind == ctor.want, "catch-summaries", cname, ci.Catch.Pos(), fmt.Sprintf("%s => %s: %s", cname, ci.TypeName, ci.Kind),
 			"%s constructs %s whose catch is %q, expected the %s form (%s)", cname, ci.TypeName, ci.Kind, ctor.want, ci.Why)
+	}
+}
+
+
+// wrapsArgument: what a constructor of the error-mode wrappers (Lift, LiftF, Try, TryF) keeps in the value it builds is
+// the user's function itself - or a function literal that does nothing but apply it: analysed as a function that is
+// called once per element (whatever an earlier call left in the variables it captures is unknown), it is one path with
+// one call of the constructor's parameter, the literal's own parameters in order, and hands the results back
+// unchanged. A literal that remembers something between calls (the first failure, the last argument) fails this.
+func wrapsArgument(c *core.Ctx, pkg, ctor string) {
+	fn := c.W.Func(pkg, ctor)
+	name := pkgShort(pkg) + "." + ctor
+	if c.Rules["wraps-argument"] == nil {
+		c.Doc("wraps-argument", 4, "Lift / LiftF / Try / TryF keep the user's function itself, or a literal that applies it exactly once and remembers nothing")
+	}
+	if fn == nil {
+		c.Undecided("wraps-argument", name, 0, "constructor not found")
+		return
+	}
+	an := c.Analyze(fn)
+	ps := dropNilGuardPanics(an.AllPaths())
+	if len(an.Problems) > 0 || len(ps) != 1 || ps[0].Exit != ir.ExitReturn || len(ps[0].Results) != 1 {
+		c.Undecided("wraps-argument", name, fn.Pos(), "the constructor is not a single path returning the wrapper")
+		return
+	}
+	r := ps[0].Results[0]
+	if r.Op == "alloc" {
+		if lit := ps[0].End.MemAt(r); lit != nil {
+			r = lit
+		}
+	}
+	w := r
+	for w != nil && (w.Op == "conv") && len(w.Args) == 1 {
+		w = w.Args[0]
+	}
+	w = wrappedFuncOf(w)
+	for w != nil && (w.Op == "conv") && len(w.Args) == 1 {
+		w = w.Args[0]
+	}
+	switch {
+	case w == nil:
+		c.Fail("wraps-argument", name, fn.Pos(), "cannot identify the function the wrapper keeps (found %s)", short(r))
+	case paramOf(w, fn, 0):
+		c.Ok("wraps-argument", name, fn.Pos(), "keeps its argument")
+	case w.Op == "closure" && w.Fn != nil:
+		ian := c.AnalyzeFrom(w.Fn, ir.ReentrantState(w.Fn, w.Args, ps[0].End), "wrapped-closure-of-"+name)
+		ips := dropNilGuardPanics(ian.AllPaths())
+		ok := len(ian.Problems) == 0 && len(ips) == 1 && ips[0].Exit == ir.ExitReturn && len(calls(ips[0])) == 1 && len(nonLocalStores(ips[0])) == 0
+		why := "the literal is not one path with one call and no store (it remembers something between calls, or decides without applying the function)"
+		if ok {
+			st := calls(ips[0])[0]
+			ok = st.Method == nil && st.Callee != nil && paramOf(st.Callee, fn, 0) && len(st.A) == len(w.Fn.Params)
+			why = "the literal's single call is not an application of the constructor's parameter"
+			if ok {
+				for i, a := range st.A {
+					if !paramOf(a, w.Fn, i) {
+						ok, why = false, "the literal does not pass its own parameters on in order"
+					}
+				}
+			}
+			if ok {
+				for i, res := range ips[0].Results {
+					want := &ir.Term{Op: "extract", Aux: fmt.Sprint(i), Args: []*ir.Term{st.R}}
+					if !(ir.Same(res, want) || len(ips[0].Results) == 1 && ir.Same(res, st.R)) {
+						ok, why = false, fmt.Sprintf("result %d of the literal is %s, expected the function's own result", i, short(res))
+					}
+				}
+			}
+		}
+		c.Check(ok, "wraps-argument", name, fn.Pos(), "a literal applying its argument exactly once, remembering nothing", "%s", why)
+	default:
+		c.Fail("wraps-argument", name, fn.Pos(), "the wrapper keeps %s, expected the constructor's argument", short(w))
 	}
 }
